@@ -312,6 +312,10 @@ class FormatMachine(MachineBase):
                                  "opened_for_write_before_failure": opened, "why": why, "error": exc_class(e)})
         return "refused:" + exc_class(e)
 
+    def op_fs_mkdir(self, op):
+        self.fs.mkdirs(op["path"])
+        return "ok"
+
     def op_fs_clobber(self, op):
         """another writer replaces the file at the destination between two operations of this node"""
         path = self.path(op)
@@ -463,6 +467,18 @@ class FormatMachine(MachineBase):
                 f.close()
         elif via == "loads":
             new.loads(self.fs.get(path).decode("utf-8"))
+        elif via == "parsed" and self.KIND == "json":
+            # the caller parsed the document itself and hands the SAME parsed mapping to two objects, one after the other
+            # (deserialize() only reads it): the second object is the one the node goes on with
+            doc = json.loads(self.fs.get(path).decode("utf-8"))
+            snap = cjson(doc)
+            first = new
+            first.deserialize(doc)
+            if cjson(doc) != snap:
+                PP = getattr(self, "_load_prop", None) or self.ROUNDTRIP_PROP
+                raise Violation(PP, "%s.deserialize_only_reads_its_input" % PP, "deserialize-changed-the-parsed-document/%s" % self.FORMAT, {})
+            new = self.new_obj()
+            new.deserialize(doc)
         else:
             new.load(self.arg(path))
         return new
@@ -488,6 +504,7 @@ class FormatMachine(MachineBase):
             return "noop"
         via = op.get("via", "path")
         P = self.ROUNDTRIP_PROP
+        self._load_prop = None
         CTX.fault("F9.restart_" + via)
         if d.get("legacy"):
             return self.restart_legacy(s, op, path, d, via)
@@ -503,7 +520,8 @@ class FormatMachine(MachineBase):
             if d.get("must") == "reject":
                 self.count(d["must_prop"], ["rejected", d["must_key"], via])
             if d["clean"] and d["expected"] is not None:
-                raise Violation(P, "%s.own_output_loads" % P, "own-output-rejected/%s/%s" % (self.FORMAT, exc_class(e)),
+                P2 = self.prop_for_diff("/forest") if hasattr(self, "prop_for_diff") and self.cfg.get("focus") == "C11" and self.FORMAT == "composeinfo" else P
+                raise Violation(P2, "%s.own_output_loads" % P2, "own-output-rejected/%s/%s" % (self.FORMAT, exc_class(e)),
                                 {"error": exc_class(e), "msg": str(e)[:200], "via": via})
             return "load-failed:" + exc_class(e)
         if d["clean"] and d["expected"] is not None:
@@ -568,6 +586,7 @@ class FormatMachine(MachineBase):
         current-version file with the proper header type, re-loading that file gives an identical object
         and a second write is byte-identical."""
         P = d.get("legacy_prop", "C05")
+        self._load_prop = P
         ver = d.get("legacy_version", "?")
         key = "%s/v%s" % (self.FORMAT, ver)
         CTX.fault("F8.older_format_on_disk")
@@ -684,7 +703,16 @@ class FormatMachine(MachineBase):
             self.slots[op.get("slot", 0)] = Slot()
         path = self.path(op)
         self.fs.put(path, data)
-        self.durable[path] = {"expected": None, "bytes": data, "clean": True, "legacy": True, "legacy_version": "corpus",
+        # the recorded reference (golden/corpus.json): what the readers made of this fixture on the tree as fixed
+        if _CORPUS_GOLDEN[0] is None:
+            from ..core import VERIF
+            try:
+                with open(os.path.join(VERIF, "golden", "corpus.json")) as f:
+                    _CORPUS_GOLDEN[0] = json.load(f)["cases"]
+            except (IOError, OSError, ValueError):
+                _CORPUS_GOLDEN[0] = {}
+        want = _CORPUS_GOLDEN[0].get("%s:%s" % (getattr(self, "name", ""), op["file"]))
+        self.durable[path] = {"expected": copy.deepcopy(want), "bytes": data, "clean": True, "legacy": True, "legacy_version": "corpus",
                               "legacy_prop": "C05", "source": "corpus:" + op["file"], "kw": {}}
         CTX.probe("c05.corpus_fixture_loaded")
         return "corpus:%d" % len(data)
@@ -1010,6 +1038,9 @@ class _HandleProxy(object):
 
     def __exit__(self, *a):
         return False
+
+
+_CORPUS_GOLDEN = [None]
 
 
 def pick_indent(rng):
